@@ -186,10 +186,22 @@ def run_C04(tier, seed):
     sc3, _ = stages.pick_scenarios("complete", tier, seed, lambda s: honest(s) and nm_of(s) <= 128, 100 if q else 1000, prop="C04")
     # batches whose members live in different contexts, in every mode (each proof's challenges come from ITS transcript)
     sc4, _ = stages.pick_scenarios("recover", tier, seed, lambda s: len(s["sc"]["members"]) >= 2 and len({m["label"] for m in s["sc"]["members"]}) >= 2, 60 if q else 600, prop="C04")
-    res.append(stages.trace_stage("C04", "dep-verify", sc2 + sc3 + sc4, seed, module="TraceVerify", consts=TV_TOKEN, calls="verify", arith=False, per_file=40))
+    # batches in which one member's statement names other generators (H, a G_k), also as the strictly largest member in a later
+    # position: either the batch is refused before any challenge, or that member's challenges depend on ITS generators
+    dis = lambda s: any(m["v"]["pgH"] != 0 or m["v"]["pgG"] != 0 for m in s["sc"]["members"])
+    big_later = lambda s: any(x > 0 and (m["v"]["pgH"] != 0 or m["v"]["pgG"] != 0) and m["m"] > max(o["m"] for y, o in enumerate(s["sc"]["members"]) if y != x)
+                              for x, m in enumerate(s["sc"]["members"]))
+    sc5, _ = stages.pick_scenarios("batch", tier, seed, dis, 40 if q else 400, prop="C04", must=big_later, must_count=10 if q else 60)
+    res.append(stages.trace_stage("C04", "dep-verify", sc2 + sc3 + sc4 + sc5, seed, module="TraceVerify", consts=TV_TOKEN, calls="verify", arith=False, per_file=40))
     res.append(stages.trace_stage("C04", "dep-prove", sc3, seed, module="TraceProve", consts={"Strict": "FALSE", "CheckArith": "FALSE", "CrossFresh": "FALSE"}, calls="prove", arith=False, per_file=40))
     # RP: honest proofs re-verified under a perturbed context are rejected
     res.append(stages.api_stage("C04", "bind", tier, seed))
+    res.append(stages.api_stage("C04", "batch", tier, seed, groups=("fm",), filter_fn=dis))
+    # beyond the chunk limit every member is still verified in ITS context (members made in different contexts, at 256-scale)
+    ctxs = lambda s: len({m["label"] for m in s["sc"]["members"]}) >= 2 and s["sc"]["skew"] == [0, 0, 0]
+    big = stages.api_stage("C04", "batch", tier, seed, groups=("rist",), scale="2:256", scale_min=0, limit=25 if q else 400, filter_fn=ctxs)
+    big.name = "api:batch@256"
+    res.append(big)
     return res
 
 
